@@ -102,6 +102,56 @@ def prove(prop_file, timeout):
     return res
 
 
+def regenerated(cfg):
+    """definitions of coq/gen/*.v (translated from the Go source on this run) that the property's theorem file mentions"""
+    out = []
+    try:
+        props = open(os.path.join(COQ, cfg["props"])).read()
+        if cfg.get("gotrans"):
+            gen = open(os.path.join(COQ, "gen", "Gen.v")).read()
+            for m in re.finditer(r"\(\* ([^\n]*?) \*\)\nDefinition (gen_\w+)", gen):
+                if re.search(r"\b" + m.group(2) + r"\b", props):
+                    out.append(m.group(2) + "  <-  " + m.group(1).split("  [")[0])
+        if cfg.get("lock_discipline"):
+            gl = open(os.path.join(COQ, "gen", "GenLocks.v")).read()
+            n = len(re.findall(r'^\s*\[?\("lk_\w+", lk_\w+\)', gl, re.M))
+            out.append("lock/channel skeletons of %d functions of the core packages (coq/gen/GenLocks.v)" % n)
+    except OSError:
+        pass
+    return out
+
+
+def lock_report():
+    """The lock-discipline analysis run on the regenerated skeletons (coq/gen/GenLocks.v): functions of the core packages
+    whose skeleton has a trace that re-acquires a held mutex or blocks on a channel under a lock, other than the listed
+    exceptions, each with one offending trace.  Returns (list, error text)."""
+    rc, out, _ = sh([os.path.join(V, "lib", "coqbuild.py"), "proofs/GenLocksCheck.vo"], timeout=900)
+    if rc != 0:
+        return [], "GenLocksCheck does not build: " + out[-600:]
+    d = os.path.join(V, "work", "lockreport")
+    os.makedirs(d, exist_ok=True)
+    f = os.path.join(d, "report_%d.v" % os.getpid())
+    open(f, "w").write("From SigP Require Import GenLocksCheck.\nDefinition R := Eval vm_compute in lk_report.\nPrint R.\n")
+    rc, out, _ = sh(["coqc", "-Q", os.path.join(COQ, "model"), "SigM", "-Q", os.path.join(COQ, "proofs"), "SigP",
+                     "-Q", os.path.join(COQ, "gen"), "SigG", f], timeout=600, cwd=d)
+    if rc != 0:
+        return [], "lock report did not evaluate: " + out[-600:]
+    body = " ".join(out.split())
+    if re.search(r"R = (nil|\[\s*\])", body):
+        return [], ""
+    items = []
+    # ("lk_fn", [("signature", ["Lock x"; "send y"]); ...])
+    for m in re.finditer(r'\("(lk_\w+)",\s*\[(.*?)\]\)\s*(?:;|\]\s*:)', body):
+        fn, rest = m.group(1), m.group(2)
+        for w in re.finditer(r'\("([^"]*)",\s*\[([^\]]*)\]\)', rest):
+            items.append({"function": fn, "objection": w.group(1), "trace": [x.strip().strip('"') for x in w.group(2).split(";") if x.strip()]})
+        if not items or items[-1]["function"] != fn:
+            items.append({"function": fn, "objection": "?", "trace": []})
+    if not items:
+        items.append({"function": "?", "objection": body[:400], "trace": []})
+    return items, ""
+
+
 def build_harness(cmd, timeout=1500, race=False):
     rc, out, dt = sh([os.path.join(V, "lib", "build_harness.sh"), cmd], timeout=timeout)
     if rc == 0 and race:   # second binary built with the Go race detector (work/bin/<cmd>race)
@@ -188,6 +238,14 @@ def main(REG):
         problems.append({"kind": "translator", "what": "gotrans could not translate the current Go source: " + gt_msg})
     if not pr["ok"]:
         problems.append({"kind": "proof-obligation", "theorem_file": cfg["props"], "what": pr.get("failed_at"), "log_tail": pr["log"][-1500:]})
+    if cfg.get("lock_discipline"):
+        # which functions of the regenerated lock skeletons have an objectionable trace that is not a listed exception
+        items, lerr = lock_report()
+        if lerr:
+            problems.append({"kind": "lock-discipline", "what": lerr})
+        for it in items[:8]:
+            problems.append({"kind": "lock-discipline", "what": "the lock skeleton of %s (regenerated from the source) has a trace on which the goroutine does: %s — %s" % (
+                it["function"], " ; ".join(it["trace"]), it["objection"]), **it})
     allowed_axioms = set(cfg.get("allowed_axioms", []))
     extra_ax = [x for x in pr.get("axioms", []) if x not in allowed_axioms]
     if extra_ax:
@@ -286,6 +344,7 @@ def main(REG):
             "known_findings_reproduced": sorted(known_hits.keys()),
             "proof_wall_s": round(pr.get("wall_s", 0), 1),
             "notes": summary.get("notes") or [],
+            "regenerated_from_source": regenerated(cfg),
             "broken": problems[:5],
         },
         "assumptions": cfg.get("assumptions", []),
